@@ -147,6 +147,8 @@ def generate(rng, tier):
         fwc = float(max(10, round(fwc)))
     if rng.random() < 0.2:
         bias = int(round(bias))            # integer-typed settings are legal
+    if rng.random() < 0.15 and float(t).is_integer():
+        t = int(t)
     if rng.random() < 0.15:
         fwc = fwc + rng.choice([0.25, 0.5, 0.75])      # a fractional full well
     frames = rng.choice([1, 1, 1, 2, 3, 4])
@@ -163,9 +165,11 @@ def generate(rng, tier):
         m = n = 1
     prnu = dcnu = None
     if not exact and rng.random() < 0.3:
-        prnu = {"seed": rng.getrandbits(32), "spread": rng.choice([0.0, 0.02, 0.3])}
+        prnu = {"seed": rng.getrandbits(32), "spread": rng.choice([0.0, 0.02, 0.3]),
+                "dtype": rng.choice(["f64", "f64", "f32"]), "zeros": rng.random() < 0.1}
     if rng.random() < 0.2:
-        dcnu = {"seed": rng.getrandbits(32), "spread": rng.choice([0.0, 0.1, 0.5])}
+        dcnu = {"seed": rng.getrandbits(32), "spread": rng.choice([0.0, 0.1, 0.5]),
+                "dtype": rng.choice(["f64", "f64", "f32", "i64"])}
     det = {"bits": bits, "gain": gain, "bias": bias, "fwc": fwc, "dark": dark, "t": t,
            "read_noise": read_noise, "frames": frames, "prnu": prnu, "dcnu": dcnu}
     tt = t if t > 0 else 1.0
@@ -288,9 +292,17 @@ def execute(plan):
         if d["prnu"]:
             g = np.random.Generator(np.random.PCG64(d["prnu"]["seed"]))
             S.prnu = 1.0 + d["prnu"]["spread"] * (g.random((m, n)) - 0.5)
+            if d["prnu"].get("zeros"):
+                S.prnu[g.random((m, n)) < 0.2] = 0.0          # dead pixels
+            if d["prnu"].get("dtype") == "f32":
+                S.prnu = S.prnu.astype(np.float32)
         if d["dcnu"]:
             g = np.random.Generator(np.random.PCG64(d["dcnu"]["seed"]))
             S.dcnu = 1.0 + d["dcnu"]["spread"] * (g.random((m, n)) - 0.5)
+            if d["dcnu"].get("dtype") == "f32":
+                S.dcnu = S.dcnu.astype(np.float32)
+            elif d["dcnu"].get("dtype") == "i64":
+                S.dcnu = np.rint(S.dcnu * 2).astype(np.int64)
 
     refresh()
 
@@ -736,6 +748,13 @@ def _bayer(np, B, mos, cfa, viol, bump, probes):
                 viol("bayer-native-sites", "deinterlace", plane="r", cfa=cfa)
             if not np.array_equal(de[..., 2], _site(mos, S["b"]).astype(de.dtype)):
                 viol("bayer-native-sites", "deinterlace", plane="b", cfa=cfa)
+        if mos.dtype.kind in "iu":
+            mi = np.asarray(B.demosaic_malvar(mos.copy(), cfa))
+            if mi.shape == (*mos.shape, 3):
+                for ch, names in ((0, ("r",)), (1, ("g1", "g2")), (2, ("b",))):
+                    for nm in names:
+                        if not np.array_equal(_site(mi[..., ch], S[nm]), _site(mos, S[nm])):
+                            viol("bayer-native-sites", "malvar-int", plane=nm, cfa=cfa)
         mf = mos.astype(np.float64)
         mal = np.asarray(B.demosaic_malvar(mf.copy(), cfa))
         if mal.shape != (*mos.shape, 3):
